@@ -5,6 +5,7 @@ import EspadaVerif.Model.Eval
 import EspadaVerif.Spec.Poker
 import EspadaVerif.Model.Showdown
 import EspadaVerif.Spec.ShowdownSpec
+import Driver.IterOp
 
 namespace Driver
 open EspadaVerif
@@ -96,6 +97,7 @@ def runOp1 (op : String) (a : List String) : Option String :=
   | "pair_index" =>
     some (showRes (fun c => toString c.code) ((mkPair (Card.ofCode (n 0)) (Card.ofCode (n 1))).index (n 2)))
   | "showdown" => some (opShowdown a)
+  | "iter" => some (opIter a)
   | "eval7" =>
     let cs := a.map (fun t => Card.ofCode t.toNat!)
     some (showRes (fun i => s!"{i} {Gen.categoryNames.getD (handType i) "?"}") (eval7 cs))
@@ -149,6 +151,7 @@ def specOp1 (op : String) (a : List String) : Option String :=
       | _, _ => none
     | _ => none
   | "showdown" => specShowdown a
+  | "iter" => specIter a
   | "eval7" =>
     let cs := a.map (fun t => (t.toNat! / 4, t.toNat! % 4))
     let b := Spec.best cs
